@@ -3,14 +3,20 @@ use serde_json::Value as J;
 
 pub mod c01;
 pub mod c02;
+pub mod c10;
+pub mod c12;
+pub mod c19;
 pub mod common;
 
-pub const ALL: &[&str] = &["C01", "C02"];
+pub const ALL: &[&str] = &["C01", "C02", "C10", "C12", "C19"];
 
 pub fn run(prop: &str, ctx: &mut Ctx) -> bool {
     match prop {
         "C01" => c01::run(ctx),
         "C02" => c02::run(ctx),
+        "C10" => c10::run(ctx),
+        "C12" => c12::run(ctx),
+        "C19" => c19::run(ctx),
         _ => return false,
     }
     true
@@ -20,6 +26,9 @@ pub fn replay(prop: &str, kind: &str, case: &J, rec: &mut Rec) -> Verdict {
     match prop {
         "C01" => c01::replay(kind, case, rec),
         "C02" => c02::replay(kind, case, rec),
+        "C10" => c10::replay(kind, case, rec),
+        "C12" => c12::replay(kind, case, rec),
+        "C19" => c19::replay(kind, case, rec),
         _ => Verdict::fail("infra:unknown-property", prop),
     }
 }
